@@ -345,8 +345,19 @@ var c14Opts = func() worldOpts {
 	return o
 }()
 
+// genC14: the usual Parallel worlds, and once in a while a very large set that starts from nothing ("all k creations" has
+// no upper bound in the property; a controller that budgets its writes per pass would show only here)
+func genC14(rt *rapid.T) World {
+	if rapid.IntRange(0, 149).Draw(rt, "hugeSet") == 0 {
+		n := int32(rapid.IntRange(501, 560).Draw(rt, "hugeReplicas"))
+		return World{Spec: SpecP{Name: "web", R: n, Parallel: true, Limit: 10}, Hist: []int{0},
+			Ops: []Op{{K: OpReconcile}, {K: OpKubelet, A: 3, B: 0}, {K: OpEditReplicas, A: 0}, {K: OpReconcile}}}
+	}
+	return genWorld(rt, c14Opts)
+}
+
 func TestC14(t *testing.T) {
-	checkCases(t, "C14", func(rt *rapid.T) World { return genWorld(rt, c14Opts) }, runC14)
+	checkCases(t, "C14", genC14, runC14)
 }
 func TestRegressC14(t *testing.T) { regress(t, "C14", runC14) }
 
